@@ -56,3 +56,499 @@ Theorem switch_table_selects :
      end).
 Proof. exact Worklist.switch_table_selects. Qed.
 Print Assumptions switch_table_selects.
+
+(* ---- parser side (SwitchParse.v): the tokens of a switch statement against a source grammar [switch_src]
+   (header: var(X) or a command; then one item per `case VALUE :` / `default :` with the tokens of its body).
+   parse_switch_sound / _complete / _exact: the parser accepts exactly the statements of the grammar that have at least one
+   item, at most one default and pairwise distinct values, consumes exactly their tokens and returns one scase per written
+   item in source order; the three rejections are located at the offending case. written_*: which written body then runs
+   (first match, default iff no match, body-less items share the next written body, trailing ones run nothing).
+   parsed_switch_runs_the_written_body: the step of the source semantics on the statement the parser returned. ---- *)
+
+From Pory Require Import Consume Parser SwitchParse.
+Theorem parse_switch_sound :
+  forall (autovars : list (text * autovar)) (switches : list (text * text)) (env_errors : bool)
+    (parse_format : toks -> res (token * text * text * toks)),
+  (forall (ts : toks) (tk : token) (v sty : text) (ts' : toks),
+   parse_format ts = Ok (tk, v, sty, ts') -> forall a : toks, advs a ts -> advs a ts') ->
+  forall (consts : list (text * text)) (f : nat) (script : text) (bs cs : list nat) (ts : toks) (ss : list stmt) (imp : impdata) (ts' : toks),
+  parse_switch autovars switches env_errors parse_format consts f script bs cs ts = Ok (ss, imp, ts') ->
+  eof_ended ts ->
+  exists (pre : option cmd) (operand : text) (oline : Z) (imph : impdata) (its : list sitem) (rb : token) (rest : toks),
+    switch_src autovars consts (body_parsed autovars switches env_errors parse_format consts script (length ts :: bs) cs)
+      (cmd_parsed switches env_errors parse_format consts script) ts pre operand oline imph its rb rest /\
+    ts' = rb :: rest /\
+    eof_ended rest /\
+    ss = switch_stmts consts (length ts) pre operand oline its /\ imp = impadd imph (items_imp its) /\ its <> [] /\ items_ok consts [] false its.
+Proof. exact SwitchParse.parse_switch_sound. Qed.
+Print Assumptions parse_switch_sound.
+
+Theorem switch_body_is_statement_sequence :
+  forall (autovars : list (text * autovar)) (switches : list (text * text)) (env_errors : bool)
+    (parse_format : toks -> res (token * text * text * toks)) (consts : list (text * text)) (script : text) (bs cs : list nat) 
+    (brace : token) (ts : toks) (b : list stmt) (imp : impdata) (ts' : toks),
+  body_parsed autovars switches env_errors parse_format consts script bs cs brace ts b imp ts' ->
+  stmts_src autovars switches env_errors parse_format consts script bs cs ts b imp ts'.
+Proof. exact SwitchParse.switch_body_is_statement_sequence. Qed.
+Print Assumptions switch_body_is_statement_sequence.
+
+Theorem parse_switch_complete :
+  forall (autovars : list (text * autovar)) (switches : list (text * text)) (env_errors : bool)
+    (parse_format : toks -> res (token * text * text * toks)) (consts : list (text * text)) (F0 : nat) (script : text) 
+    (bs cs : list nat) (ts : list token) (pre : option cmd) (operand : text) (oline : Z) (imph : impdata) (its : list sitem) 
+    (rb : token) (rest : toks) (f : nat),
+  switch_src autovars consts (body_parses autovars switches env_errors parse_format consts F0 script (length ts :: bs) cs)
+    (cmd_parses switches env_errors parse_format consts F0 script) ts pre operand oline imph its rb rest ->
+  its <> [] ->
+  items_ok consts [] false its ->
+  F0 + length ts < f ->
+  parse_switch autovars switches env_errors parse_format consts f script bs cs ts =
+  Ok (switch_stmts consts (length ts) pre operand oline its, impadd imph (items_imp its), rb :: rest).
+Proof. exact SwitchParse.parse_switch_complete. Qed.
+Print Assumptions parse_switch_complete.
+
+Theorem switch_without_cases_rejected :
+  forall (autovars : list (text * autovar)) (switches : list (text * text)) (env_errors : bool)
+    (parse_format : toks -> res (token * text * text * toks)) (consts : list (text * text)) (F0 : nat) (script : text) 
+    (bs cs : list nat) (ts : list token) (pre : option cmd) (operand : text) (oline : Z) (imph : impdata) (rb : token) 
+    (rest : toks) (f : nat),
+  switch_src autovars consts (body_parses autovars switches env_errors parse_format consts F0 script (length ts :: bs) cs)
+    (cmd_parses switches env_errors parse_format consts F0 script) ts pre operand oline imph [] rb rest ->
+  F0 + length ts < f ->
+  parse_switch autovars switches env_errors parse_format consts f script bs cs ts =
+  err_range (cur ts) rb
+    (String.String (Ascii.Ascii true true false false true true true false)
+       (String.String (Ascii.Ascii true true true false true true true false)
+          (String.String (Ascii.Ascii true false false true false true true false)
+             (String.String (Ascii.Ascii false false true false true true true false)
+                (String.String (Ascii.Ascii true true false false false true true false)
+                   (String.String (Ascii.Ascii false false false true false true true false)
+                      (String.String (Ascii.Ascii false false false false false true false false)
+                         (String.String (Ascii.Ascii true true false false true true true false)
+                            (String.String (Ascii.Ascii false false true false true true true false)
+                               (String.String (Ascii.Ascii true false false false false true true false)
+                                  (String.String (Ascii.Ascii false false true false true true true false)
+                                     (String.String (Ascii.Ascii true false true false false true true false)
+                                        (String.String (Ascii.Ascii true false true true false true true false)
+                                           (String.String (Ascii.Ascii true false true false false true true false)
+                                              (String.String (Ascii.Ascii false true true true false true true false)
+                                                 (String.String (Ascii.Ascii false false true false true true true false)
+                                                    (String.String (Ascii.Ascii false false false false false true false false)
+                                                       (String.String (Ascii.Ascii false false false true false true true false)
+                                                          (String.String (Ascii.Ascii true false false false false true true false)
+                                                             (String.String (Ascii.Ascii true true false false true true true false)
+                                                                (String.String (Ascii.Ascii false false false false false true false false)
+                                                                   (String.String (Ascii.Ascii false true true true false true true false)
+                                                                      (String.String (Ascii.Ascii true true true true false true true false)
+                                                                         (String.String
+                                                                            (Ascii.Ascii false false false false false true false false)
+                                                                            (String.String
+                                                                               (Ascii.Ascii true true false false false true true false)
+                                                                               (String.String
+                                                                                  (Ascii.Ascii true false false false false true true false)
+                                                                                  (String.String
+                                                                                     (Ascii.Ascii true true false false true true true false)
+                                                                                     (String.String
+                                                                                        (Ascii.Ascii true false true false false true true false)
+                                                                                        (String.String
+                                                                                           (Ascii.Ascii true true false false true true true
+                                                                                              false)
+                                                                                           (String.String
+                                                                                              (Ascii.Ascii false false false false false true
+                                                                                                 false false)
+                                                                                              (String.String
+                                                                                                 (Ascii.Ascii true true true true false true
+                                                                                                    true false)
+                                                                                                 (String.String
+                                                                                                    (Ascii.Ascii false true false false true
+                                                                                                       true true false)
+                                                                                                    (String.String
+                                                                                                       (Ascii.Ascii false false false false
+                                                                                                          false true false false)
+                                                                                                       (String.String
+                                                                                                          (Ascii.Ascii false false true false
+                                                                                                             false true true false)
+                                                                                                          (String.String
+                                                                                                             (Ascii.Ascii true false true false
+                                                                                                                false true true false)
+                                                                                                             (String.String
+                                                                                                                (Ascii.Ascii false true true
+                                                                                                                   false false true true false)
+                                                                                                                (String.String
+                                                                                                                   (Ascii.Ascii true false false
+                                                                                                                   false false true true false)
+                                                                                                                   (String.String
+                                                                                                                   (Ascii.Ascii true false true
+                                                                                                                   false true true true false)
+                                                                                                                   (String.String
+                                                                                                                   (Ascii.Ascii false false true
+                                                                                                                   true false true true false)
+                                                                                                                   (String.String
+                                                                                                                   (Ascii.Ascii false false true
+                                                                                                                   false true true true false)
+                                                                                                                   (String.String
+                                                                                                                   (Ascii.Ascii false false
+                                                                                                                   false false false true false
+                                                                                                                   false)
+                                                                                                                   (String.String
+                                                                                                                   (Ascii.Ascii true true false
+                                                                                                                   false false true true false)
+                                                                                                                   (String.String
+                                                                                                                   (Ascii.Ascii true false false
+                                                                                                                   false false true true false)
+                                                                                                                   (String.String
+                                                                                                                   (Ascii.Ascii true true false
+                                                                                                                   false true true true false)
+                                                                                                                   (String.String
+                                                                                                                   (Ascii.Ascii true false true
+                                                                                                                   false false true true false)
+                                                                                                                   String.EmptyString))))))))))))))))))))))))))))))))))))))))))))).
+Proof. exact SwitchParse.switch_without_cases_rejected. Qed.
+Print Assumptions switch_without_cases_rejected.
+
+Theorem switch_second_default_rejected :
+  forall (autovars : list (text * autovar)) (switches : list (text * text)) (env_errors : bool)
+    (parse_format : toks -> res (token * text * text * toks)) (consts : list (text * text)) (F0 : nat) (script : text) 
+    (bs cs : list nat) (ts : toks) (pre : option cmd) (operand : text) (oline : Z) (imph : impdata) (lb : token) (cts : toks) 
+    (its : list sitem) (dk : token) (R : list token) (f : nat),
+  header_src autovars consts (cmd_parses switches env_errors parse_format consts F0 script) ts pre operand oline imph lb cts ->
+  cases_src (body_parses autovars switches env_errors parse_format consts F0 script (length ts :: bs) cs lb) cts its (dk :: R) ->
+  ttype dk = DEFAULT ->
+  items_ok consts [] false its ->
+  has_default its = true ->
+  F0 + length ts < f ->
+  parse_switch autovars switches env_errors parse_format consts f script bs cs ts =
+  err_tok dk
+    (String.String (Ascii.Ascii true false true true false true true false)
+       (String.String (Ascii.Ascii true false true false true true true false)
+          (String.String (Ascii.Ascii false false true true false true true false)
+             (String.String (Ascii.Ascii false false true false true true true false)
+                (String.String (Ascii.Ascii true false false true false true true false)
+                   (String.String (Ascii.Ascii false false false false true true true false)
+                      (String.String (Ascii.Ascii false false true true false true true false)
+                         (String.String (Ascii.Ascii true false true false false true true false)
+                            (String.String (Ascii.Ascii false false false false false true false false)
+                               (String.String (Ascii.Ascii false false false false false true true false)
+                                  (String.String (Ascii.Ascii false false true false false true true false)
+                                     (String.String (Ascii.Ascii true false true false false true true false)
+                                        (String.String (Ascii.Ascii false true true false false true true false)
+                                           (String.String (Ascii.Ascii true false false false false true true false)
+                                              (String.String (Ascii.Ascii true false true false true true true false)
+                                                 (String.String (Ascii.Ascii false false true true false true true false)
+                                                    (String.String (Ascii.Ascii false false true false true true true false)
+                                                       (String.String (Ascii.Ascii false false false false false true true false)
+                                                          (String.String (Ascii.Ascii false false false false false true false false)
+                                                             (String.String (Ascii.Ascii true true false false false true true false)
+                                                                (String.String (Ascii.Ascii true false false false false true true false)
+                                                                   (String.String (Ascii.Ascii true true false false true true true false)
+                                                                      (String.String (Ascii.Ascii true false true false false true true false)
+                                                                         (String.String (Ascii.Ascii true true false false true true true false)
+                                                                            (String.String
+                                                                               (Ascii.Ascii false false false false false true false false)
+                                                                               (String.String
+                                                                                  (Ascii.Ascii false true true false false true true false)
+                                                                                  (String.String
+                                                                                     (Ascii.Ascii true true true true false true true false)
+                                                                                     (String.String
+                                                                                        (Ascii.Ascii true false true false true true true false)
+                                                                                        (String.String
+                                                                                           (Ascii.Ascii false true true true false true true
+                                                                                              false)
+                                                                                           (String.String
+                                                                                              (Ascii.Ascii false false true false false true
+                                                                                                 true false)
+                                                                                              (String.String
+                                                                                                 (Ascii.Ascii false false false false false true
+                                                                                                    false false)
+                                                                                                 (String.String
+                                                                                                    (Ascii.Ascii true false false true false
+                                                                                                       true true false)
+                                                                                                    (String.String
+                                                                                                       (Ascii.Ascii false true true true false
+                                                                                                          true true false)
+                                                                                                       (String.String
+                                                                                                          (Ascii.Ascii false false false false
+                                                                                                             false true false false)
+                                                                                                          (String.String
+                                                                                                             (Ascii.Ascii true true false false
+                                                                                                                true true true false)
+                                                                                                             (String.String
+                                                                                                                (Ascii.Ascii true true true
+                                                                                                                   false true true true false)
+                                                                                                                (String.String
+                                                                                                                   (Ascii.Ascii true false false
+                                                                                                                   true false true true false)
+                                                                                                                   (String.String
+                                                                                                                   (Ascii.Ascii false false true
+                                                                                                                   false true true true false)
+                                                                                                                   (String.String
+                                                                                                                   (Ascii.Ascii true true false
+                                                                                                                   false false true true false)
+                                                                                                                   (String.String
+                                                                                                                   (Ascii.Ascii false false
+                                                                                                                   false true false true true
+                                                                                                                   false)
+                                                                                                                   (String.String
+                                                                                                                   (Ascii.Ascii false false
+                                                                                                                   false false false true false
+                                                                                                                   false)
+                                                                                                                   (String.String
+                                                                                                                   (Ascii.Ascii true true false
+                                                                                                                   false true true true false)
+                                                                                                                   (String.String
+                                                                                                                   (Ascii.Ascii false false true
+                                                                                                                   false true true true false)
+                                                                                                                   (String.String
+                                                                                                                   (Ascii.Ascii true false false
+                                                                                                                   false false true true false)
+                                                                                                                   (String.String
+                                                                                                                   (Ascii.Ascii false false true
+                                                                                                                   false true true true false)
+                                                                                                                   (String.String
+                                                                                                                   (Ascii.Ascii true false true
+                                                                                                                   false false true true false)
+                                                                                                                   (String.String
+                                                                                                                   (Ascii.Ascii true false true
+                                                                                                                   true false true true false)
+                                                                                                                   (String.String
+                                                                                                                   (Ascii.Ascii true false true
+                                                                                                                   false false true true false)
+                                                                                                                   (String.String
+                                                                                                                   (Ascii.Ascii false true true
+                                                                                                                   true false true true false)
+                                                                                                                   (String.String
+                                                                                                                   (Ascii.Ascii false false true
+                                                                                                                   false true true true false)
+                                                                                                                   String.EmptyString)))))))))))))))))))))))))))))))))))))))))))))))))).
+Proof. exact SwitchParse.switch_second_default_rejected. Qed.
+Print Assumptions switch_second_default_rejected.
+
+Theorem switch_repeated_value_rejected :
+  forall (autovars : list (text * autovar)) (switches : list (text * text)) (env_errors : bool)
+    (parse_format : toks -> res (token * text * text * toks)) (consts : list (text * text)) (F0 : nat) (script : text) 
+    (bs cs : list nat) (ts : toks) (pre : option cmd) (operand : text) (oline : Z) (imph : impdata) (lb : token) (cts : toks) 
+    (its : list sitem) (ck : token) (vs : list token) (colon : token) (R : list token) (f : nat),
+  header_src autovars consts (cmd_parses switches env_errors parse_format consts F0 script) ts pre operand oline imph lb cts ->
+  cases_src (body_parses autovars switches env_errors parse_format consts F0 script (length ts :: bs) cs lb) cts its (ck :: vs ++ colon :: R) ->
+  ttype ck = CASE ->
+  value_toks vs ->
+  ttype colon = COLON ->
+  items_ok consts [] false its ->
+  In (joined consts vs) (case_values consts its) ->
+  F0 + length ts < f ->
+  parse_switch autovars switches env_errors parse_format consts f script bs cs ts =
+  err_range ck colon
+    (String.String (Ascii.Ascii false false true false false true true false)
+       (String.String (Ascii.Ascii true false true false true true true false)
+          (String.String (Ascii.Ascii false false false false true true true false)
+             (String.String (Ascii.Ascii false false true true false true true false)
+                (String.String (Ascii.Ascii true false false true false true true false)
+                   (String.String (Ascii.Ascii true true false false false true true false)
+                      (String.String (Ascii.Ascii true false false false false true true false)
+                         (String.String (Ascii.Ascii false false true false true true true false)
+                            (String.String (Ascii.Ascii true false true false false true true false)
+                               (String.String (Ascii.Ascii false false false false false true false false)
+                                  (String.String (Ascii.Ascii true true false false true true true false)
+                                     (String.String (Ascii.Ascii true true true false true true true false)
+                                        (String.String (Ascii.Ascii true false false true false true true false)
+                                           (String.String (Ascii.Ascii false false true false true true true false)
+                                              (String.String (Ascii.Ascii true true false false false true true false)
+                                                 (String.String (Ascii.Ascii false false false true false true true false)
+                                                    (String.String (Ascii.Ascii false false false false false true false false)
+                                                       (String.String (Ascii.Ascii true true false false false true true false)
+                                                          (String.String (Ascii.Ascii true false false false false true true false)
+                                                             (String.String (Ascii.Ascii true true false false true true true false)
+                                                                (String.String (Ascii.Ascii true false true false false true true false)
+                                                                   (String.String (Ascii.Ascii true true false false true true true false)
+                                                                      (String.String
+                                                                         (Ascii.Ascii false false false false false true false false)
+                                                                         (String.String
+                                                                            (Ascii.Ascii false false true false false true true false)
+                                                                            (String.String
+                                                                               (Ascii.Ascii true false true false false true true false)
+                                                                               (String.String
+                                                                                  (Ascii.Ascii false false true false true true true false)
+                                                                                  (String.String
+                                                                                     (Ascii.Ascii true false true false false true true false)
+                                                                                     (String.String
+                                                                                        (Ascii.Ascii true true false false false true true false)
+                                                                                        (String.String
+                                                                                           (Ascii.Ascii false false true false true true true
+                                                                                              false)
+                                                                                           (String.String
+                                                                                              (Ascii.Ascii true false true false false true true
+                                                                                                 false)
+                                                                                              (String.String
+                                                                                                 (Ascii.Ascii false false true false false true
+                                                                                                    true false) String.EmptyString))))))))))))))))))))))))))))))).
+Proof. exact SwitchParse.switch_repeated_value_rejected. Qed.
+Print Assumptions switch_repeated_value_rejected.
+
+Theorem written_first_match :
+  forall (consts : list (text * text)) (pre : list sitem) (it : sitem) (post : list sitem) (m : text -> bool),
+  (forall x : sitem, In x pre -> item_default x = true \/ m (item_value consts x) = false) ->
+  item_default it = false ->
+  m (item_value consts it) = true -> select_case (map (item_case consts) (pre ++ it :: post)) m = next_written (it :: post).
+Proof. exact SwitchParse.written_first_match. Qed.
+Print Assumptions written_first_match.
+
+Theorem written_default :
+  forall (consts : list (text * text)) (pre : list sitem) (d : sitem) (post : list sitem) (m : text -> bool),
+  (forall x : sitem, In x (pre ++ d :: post) -> item_default x = true \/ m (item_value consts x) = false) ->
+  item_default d = true ->
+  ndefaults (pre ++ d :: post) <= 1 -> select_case (map (item_case consts) (pre ++ d :: post)) m = next_written (d :: post).
+Proof. exact SwitchParse.written_default. Qed.
+Print Assumptions written_default.
+
+Theorem written_no_match_no_default :
+  forall (consts : list (text * text)) (its : list sitem) (m : text -> bool),
+  (forall x : sitem, In x its -> item_default x = false /\ m (item_value consts x) = false) -> select_case (map (item_case consts) its) m = [].
+Proof. exact SwitchParse.written_no_match_no_default. Qed.
+Print Assumptions written_no_match_no_default.
+
+Theorem written_one_body :
+  forall (consts : list (text * text)) (its : list sitem) (m : text -> bool),
+  select_case (map (item_case consts) its) m = [] \/ (exists it : sitem, In it its /\ select_case (map (item_case consts) its) m = item_body it).
+Proof. exact SwitchParse.written_one_body. Qed.
+Print Assumptions written_one_body.
+
+Theorem parsed_switch_runs_the_written_body :
+  forall (autovars : list (text * autovar)) (switches : list (text * text)) (env_errors : bool)
+    (parse_format : toks -> res (token * text * text * toks)) (consts : list (text * text)) (St : Type) (exec : cmd -> St -> stepres St)
+    (flag_set trainer_beaten : text -> St -> bool) (cmp_var cmp_var_value : text -> text -> St -> comparison)
+    (case_matches : text -> text -> St -> bool) (find_label : text -> option sstate),
+  (forall (ts : toks) (tk : token) (v sty : text) (ts' : toks),
+   parse_format ts = Ok (tk, v, sty, ts') -> forall a : toks, advs a ts -> advs a ts') ->
+  forall (f : nat) (script : text) (bs cs : list nat) (ts : toks) (ss : list stmt) (imp : impdata) (ts' : toks),
+  parse_switch autovars switches env_errors parse_format consts f script bs cs ts = Ok (ss, imp, ts') ->
+  eof_ended ts ->
+  exists (pre : option cmd) (operand : text) (oline : Z) (imph : impdata) (its : list sitem) (rb : token) (rest : toks),
+    switch_src autovars consts (body_parsed autovars switches env_errors parse_format consts script (length ts :: bs) cs)
+      (cmd_parsed switches env_errors parse_format consts script) ts pre operand oline imph its rb rest /\
+    ts' = rb :: rest /\
+    ss = match pre with
+         | Some c => [SCmd c]
+         | None => []
+         end ++ [SSwitch (length ts) operand oline (map (item_case consts) its)] /\
+    its <> [] /\
+    NoDup (case_values consts its) /\
+    ndefaults its <= 1 /\
+    runs_written consts St exec flag_set trainer_beaten cmp_var cmp_var_value case_matches find_label (length ts) operand oline its.
+Proof. exact SwitchParse.parsed_switch_runs_the_written_body. Qed.
+Print Assumptions parsed_switch_runs_the_written_body.
+
+Theorem written_switch_runs_the_written_body :
+  forall (autovars : list (text * autovar)) (switches : list (text * text)) (env_errors : bool)
+    (parse_format : toks -> res (token * text * text * toks)) (consts : list (text * text)) (St : Type) (exec : cmd -> St -> stepres St)
+    (flag_set trainer_beaten : text -> St -> bool) (cmp_var cmp_var_value : text -> text -> St -> comparison)
+    (case_matches : text -> text -> St -> bool) (find_label : text -> option sstate) (F0 f : nat) (script : text) (bs cs : list nat)
+    (ts : list token) (pre : option cmd) (operand : text) (oline : Z) (imph : impdata) (its : list sitem) (rb : token) 
+    (rest : toks),
+  switch_src autovars consts (body_parses autovars switches env_errors parse_format consts F0 script (length ts :: bs) cs)
+    (cmd_parses switches env_errors parse_format consts F0 script) ts pre operand oline imph its rb rest ->
+  its <> [] ->
+  NoDup (case_values consts its) ->
+  ndefaults its <= 1 ->
+  F0 + length ts < f ->
+  parse_switch autovars switches env_errors parse_format consts f script bs cs ts =
+  Ok
+    (match pre with
+     | Some c => [SCmd c]
+     | None => []
+     end ++ [SSwitch (length ts) operand oline (map (item_case consts) its)], impadd imph (items_imp its), rb :: rest) /\
+  runs_written consts St exec flag_set trainer_beaten cmp_var cmp_var_value case_matches find_label (length ts) operand oline its.
+Proof. exact SwitchParse.written_switch_runs_the_written_body. Qed.
+Print Assumptions written_switch_runs_the_written_body.
+
+Theorem parse_switch_fuel_independent :
+  forall (autovars : list (text * autovar)) (switches : list (text * text)) (env_errors : bool)
+    (parse_format : toks -> res (token * text * text * toks)) (consts : list (text * text)),
+  (forall (ts : toks) (tk : token) (v sty : text) (ts' : toks),
+   parse_format ts = Ok (tk, v, sty, ts') -> forall a : toks, advs a ts -> advs a ts') ->
+  (forall (ts : toks) (tk : token) (v sty : text) (ts' : toks), parse_format ts = Ok (tk, v, sty, ts') -> eof_ended ts -> length ts' < length ts) ->
+  forall (script : text) (bs cs : list nat) (ts : toks),
+  eof_ended ts ->
+  forall f g : nat,
+  5 * length ts <= f ->
+  5 * length ts <= g ->
+  parse_switch autovars switches env_errors parse_format consts f script bs cs ts =
+  parse_switch autovars switches env_errors parse_format consts g script bs cs ts.
+Proof. exact SwitchParse.parse_switch_fuel_independent. Qed.
+Print Assumptions parse_switch_fuel_independent.
+
+Theorem parse_switch_exact :
+  forall (autovars : list (text * autovar)) (switches : list (text * text)) (env_errors : bool)
+    (parse_format : toks -> res (token * text * text * toks)) (consts : list (text * text)),
+  (forall (ts : toks) (tk : token) (v sty : text) (ts' : toks),
+   parse_format ts = Ok (tk, v, sty, ts') -> forall a : toks, advs a ts -> advs a ts') ->
+  (forall (ts : toks) (tk : token) (v sty : text) (ts' : toks), parse_format ts = Ok (tk, v, sty, ts') -> eof_ended ts -> length ts' < length ts) ->
+  forall (f : nat) (script : text) (bs cs : list nat) (ts : toks) (ss : list stmt) (imp : impdata) (ts' : toks),
+  eof_ended ts ->
+  5 * length ts <= f ->
+  parse_switch autovars switches env_errors parse_format consts f script bs cs ts = Ok (ss, imp, ts') <->
+  (exists (pre : option cmd) (operand : text) (oline : Z) (imph : impdata) (its : list sitem) (rb : token) (rest : toks),
+     switch_src autovars consts (body_is autovars switches env_errors parse_format consts script (length ts :: bs) cs)
+       (cmd_is switches env_errors parse_format consts script) ts pre operand oline imph its rb rest /\
+     its <> [] /\
+     NoDup (case_values consts its) /\
+     ndefaults its <= 1 /\ ss = switch_stmts consts (length ts) pre operand oline its /\ imp = impadd imph (items_imp its) /\ ts' = rb :: rest).
+Proof. exact SwitchParse.parse_switch_exact. Qed.
+Print Assumptions parse_switch_exact.
+
+Theorem parse_switch_sound_real :
+  forall (autovars : list (text * autovar)) (switches : list (text * text)) (ee : bool) (fc : Format.fontcfg) (cli_font : text) 
+    (cli_maxlen : Z) (consts : list (text * text)) (f : nat) (script : text) (bs cs : list nat) (ts : toks) (ss : list stmt) 
+    (imp : impdata) (ts' : toks),
+  parse_switch autovars switches ee (Format.parse_format fc cli_font cli_maxlen ee) consts f script bs cs ts = Ok (ss, imp, ts') ->
+  eof_ended ts ->
+  exists (pre : option cmd) (operand : text) (oline : Z) (imph : impdata) (its : list sitem) (rb : token) (rest : toks),
+    switch_src autovars consts
+      (body_parsed autovars switches ee (Format.parse_format fc cli_font cli_maxlen ee) consts script (length ts :: bs) cs)
+      (cmd_parsed switches ee (Format.parse_format fc cli_font cli_maxlen ee) consts script) ts pre operand oline imph its rb rest /\
+    ts' = rb :: rest /\
+    eof_ended rest /\
+    ss = switch_stmts consts (length ts) pre operand oline its /\ imp = impadd imph (items_imp its) /\ its <> [] /\ items_ok consts [] false its.
+Proof. exact SwitchParse.parse_switch_sound_real. Qed.
+Print Assumptions parse_switch_sound_real.
+
+Theorem parse_switch_exact_real :
+  forall (autovars : list (text * autovar)) (switches : list (text * text)) (ee : bool) (fc : Format.fontcfg) (cli_font : text) 
+    (cli_maxlen : Z) (consts : list (text * text)) (f : nat) (script : text) (bs cs : list nat) (ts : toks) (ss : list stmt) 
+    (imp : impdata) (ts' : toks),
+  eof_ended ts ->
+  5 * length ts <= f ->
+  parse_switch autovars switches ee (Format.parse_format fc cli_font cli_maxlen ee) consts f script bs cs ts = Ok (ss, imp, ts') <->
+  (exists (pre : option cmd) (operand : text) (oline : Z) (imph : impdata) (its : list sitem) (rb : token) (rest : toks),
+     switch_src autovars consts
+       (body_is autovars switches ee (Format.parse_format fc cli_font cli_maxlen ee) consts script (length ts :: bs) cs)
+       (cmd_is switches ee (Format.parse_format fc cli_font cli_maxlen ee) consts script) ts pre operand oline imph its rb rest /\
+     its <> [] /\
+     NoDup (case_values consts its) /\
+     ndefaults its <= 1 /\ ss = switch_stmts consts (length ts) pre operand oline its /\ imp = impadd imph (items_imp its) /\ ts' = rb :: rest).
+Proof. exact SwitchParse.parse_switch_exact_real. Qed.
+Print Assumptions parse_switch_exact_real.
+
+Theorem parsed_switch_runs_the_written_body_real :
+  forall (autovars : list (text * autovar)) (switches : list (text * text)) (ee : bool) (fc : Format.fontcfg) (cli_font : text) 
+    (cli_maxlen : Z) (consts : list (text * text)) (St : Type) (case_matches : text -> text -> St -> bool) (exec : cmd -> St -> stepres St)
+    (flag_set trainer_beaten : text -> St -> bool) (cmp_var cmp_var_value : text -> text -> St -> comparison)
+    (find_label : text -> option sstate) (f : nat) (script : text) (bs cs : list nat) (ts : toks) (ss : list stmt) (imp : impdata) 
+    (ts' : toks),
+  parse_switch autovars switches ee (Format.parse_format fc cli_font cli_maxlen ee) consts f script bs cs ts = Ok (ss, imp, ts') ->
+  eof_ended ts ->
+  exists (pre : option cmd) (operand : text) (oline : Z) (imph : impdata) (its : list sitem) (rb : token) (rest : toks),
+    switch_src autovars consts
+      (body_parsed autovars switches ee (Format.parse_format fc cli_font cli_maxlen ee) consts script (length ts :: bs) cs)
+      (cmd_parsed switches ee (Format.parse_format fc cli_font cli_maxlen ee) consts script) ts pre operand oline imph its rb rest /\
+    ts' = rb :: rest /\
+    ss = match pre with
+         | Some c => [SCmd c]
+         | None => []
+         end ++ [SSwitch (length ts) operand oline (map (item_case consts) its)] /\
+    its <> [] /\
+    NoDup (case_values consts its) /\
+    ndefaults its <= 1 /\
+    runs_written consts St exec flag_set trainer_beaten cmp_var cmp_var_value case_matches find_label (length ts) operand oline its.
+Proof. exact SwitchParse.parsed_switch_runs_the_written_body_real. Qed.
+Print Assumptions parsed_switch_runs_the_written_body_real.
+
